@@ -113,12 +113,22 @@ def expected_for(T, text, kw=None):
     return str(make_licensing(T).parse(text, **(kw or {})))
 
 
+# two threads parsing different texts on one Licensing (anything kept on the shared tokenizer between two steps of one call
+# would be overwritten by the other call)
+TEXT_PAIRS = [
+    ([('mit', ['MIT license'], False), ('GPL 2.0', ['GNU GPL v2'], False), ('Classpath', [], True), ('Apache-2.0', [], False)],
+     ('mit and (GPL 2.0 with classpath or Apache-2.0)', 'gnu gpl v2 or Some Unknown License')),
+]
+
+
 def execute(T, text, schedule, nthreads, ranges, extra=None, kwargs=None):
     """One controlled execution. Returns (results, log, lines per thread, errors)."""
     le = imp()
     L = make_licensing(T)
     kws = list(kwargs or ()) + [{}] * nthreads
-    fns = [(lambda kw=kws[i]: str(L.parse(text, **kw))) for i in range(nthreads)]
+    texts = list(text) if isinstance(text, (list, tuple)) else [text] * nthreads
+    texts = texts + [texts[-1]] * nthreads
+    fns = [(lambda kw=kws[i], tx=texts[i]: str(L.parse(tx, **kw))) for i in range(nthreads)]
     if extra == 'ctor':
         fns[-1] = lambda: str(le.Licensing(['zlib', 'x y']).parse('zlib or x y'))
     lg = Logger(ranges, nthreads)
@@ -176,6 +186,26 @@ def run(rep, tier, seed):
                 if bad:
                     rep.violations.append({'key': 'schedule', 'kind': 'schedule', 'table': T, 'text': text, 'schedule': schedule,
                                            'threads': 2, 'extra': None, 'kwargs': list(kws), 'what': bad})
+    for T, texts in TEXT_PAIRS:
+        wants = [expected_for(T, tx) for tx in texts]
+        res, log, lines, errs, dl = execute(T, texts, [(0, None), (1, None)], 2, ranges)
+        for first in (0, 1):
+            other = 1 - first
+            for k in range(1, lines[first] + 1, 1 if tier == 'thorough' else 2):
+                schedule = [(first, k), (other, None), (first, None)]
+                results, log, lines2, errs, dl = execute(T, texts, schedule, 2, ranges)
+                rep.case((repr(T), repr(texts), repr(schedule)), nontrivial=True,
+                         sample={'table': T, 'texts': list(texts), 'schedule': schedule} if k == 1 else None)
+                rep.count('different_texts_schedules')
+                bad = 'the execution did not terminate under the scheduler' if dl else None
+                for i, r in enumerate(results):
+                    if errs[i] is not None:
+                        bad = bad or 'thread %d raised %s: %s' % (i, type(errs[i]).__name__, errs[i])
+                    elif r != wants[i]:
+                        bad = bad or 'thread %d returned %r, alone it returns %r' % (i, r, wants[i])
+                if bad:
+                    rep.violations.append({'key': 'schedule', 'kind': 'schedule', 'table': T, 'text': list(texts), 'schedule': schedule,
+                                           'threads': 2, 'extra': None, 'what': bad})
     reqs, metas = [], []
     for T, text, want, schedule, nth, extra in cases:
         results, log, lines, errs, dl = execute(T, text, schedule, nth, ranges, extra)
@@ -231,7 +261,9 @@ def replay(payload):
     sc = [tuple(x) for x in payload['schedule']]
     kws = payload.get('kwargs')
     results, log, lines, errs, dl = execute(T, payload['text'], sc, payload['threads'], ranges, payload.get('extra'), kwargs=kws)
-    wants = [expected_for(T, payload['text'], (kws[i] if kws and i < len(kws) else None)) for i in range(payload['threads'])]
+    ptx = payload['text']
+    ptxs = list(ptx) if isinstance(ptx, (list, tuple)) else [ptx] * payload['threads']
+    wants = [expected_for(T, ptxs[min(i, len(ptxs) - 1)], (kws[i] if kws and i < len(kws) else None)) for i in range(payload['threads'])]
     ok = all((errs[i] is None and (r == wants[i] or (payload.get('extra') == 'ctor' and i == payload['threads'] - 1)))
              for i, r in enumerate(results))
     return ok, 'results %r (alone: %r)' % (results, wants[0])
